@@ -1,7 +1,7 @@
 (* C19 — Multipart codec round trip, truthful size, reader termination.
    Only statements; each closed by `exact` of a lemma proved in Proofs/. *)
 From AV Require Import Lib.Base Generated.MultipartGen Model.Multipart Model.MultipartSpec
-  Proofs.MultipartSize Proofs.MultipartTerm Proofs.MultipartRoundtrip Proofs.MultipartBase64.
+  Proofs.MultipartSize Proofs.MultipartTerm Proofs.MultipartRoundtrip Proofs.MultipartBase64 Proofs.MultipartWindow.
 Open Scope N_scope.
 
 (* ------------------------------------------------------------------ truthful size *)
@@ -51,6 +51,63 @@ Example C19_roundtrip_example :
   spec_decode [66; 78] (encode [66; 78] ps) = Some (map block ps).
 Proof. vm_compute. split; reflexivity. Qed.
 Print Assumptions C19_roundtrip_example.
+
+(* ------------------------------------------------------------------ the sliding-window reader returns the content *)
+
+(* Wanted: under any segmentation and any API schedule the reader returns the same parts.  Proved here, for a part
+   without Content-Length and without base64 (form-data fields, encoded parts of other subtypes) whose content is
+   followed by CRLF "--" boundary and anything else, fed in ANY segmentation (segment sizes, arrival delays, eager
+   or late EOF), whatever read-ahead, push-back and boundary straddling occurs: if BodyPartReader.read() does not
+   raise, it returns exactly the content.  [_partial]: the extra hypothesis is in the conclusion's premise
+   `= Ok ...` - that a VALID body never raises ("Reading after EOF", the CRLF check after the part) is not
+   proved, nor is the Content-Length path or the readline API; those rest on the correspondence suites.
+   Together with C19_read_terminates: read() ends, and ends with the content or an exception. *)
+Theorem C19_window_reader_sound_partial : forall bnd body rest mx segs eager limit fuel data p' s',
+  (forall i, (i < 2 + length body)%nat ->
+     starts_with (delim_prefix ++ bnd) (skipn i (delim_prefix ++ body ++ (delim_prefix ++ bnd) ++ rest)) = false) ->
+  concat (map snd segs) = body ++ (delim_prefix ++ bnd) ++ rest ->
+  part_read fuel (new_part bnd None false mx) (s_init segs eager limit) = Ok (data, p', s') -> data = body.
+Proof. exact window_reader_sound_segs. Qed.
+Print Assumptions C19_window_reader_sound_partial.
+
+(* the same for `while not part.at_eof(): await part.read_chunk(size_i)` with any sizes in rotation *)
+Theorem C19_window_reader_chunks_sound_partial :
+  forall bnd body rest mx segs eager limit fuel sizes count bounded data p' s',
+  (forall i, (i < 2 + length body)%nat ->
+     starts_with (delim_prefix ++ bnd) (skipn i (delim_prefix ++ body ++ (delim_prefix ++ bnd) ++ rest)) = false) ->
+  concat (map snd segs) = body ++ (delim_prefix ++ bnd) ++ rest ->
+  chunks_loop fuel sizes count bounded [] (new_part bnd None false mx) (s_init segs eager limit) = Ok (data, p', s') ->
+  p_at_eof p' = true -> data = body.
+Proof. exact window_reader_chunks_sound_segs. Qed.
+Print Assumptions C19_window_reader_chunks_sound_partial.
+
+(* ... and from any reachable reader state (any push-back history), not only from a fresh stream *)
+Theorem C19_window_reader_sound_any_state_partial : forall bnd body rest mx s fuel data p' s',
+  (forall i, (i < 2 + length body)%nat ->
+     starts_with (delim_prefix ++ bnd) (skipn i (delim_prefix ++ body ++ (delim_prefix ++ bnd) ++ rest)) = false) ->
+  s_ok s -> L s = body ++ (delim_prefix ++ bnd) ++ rest ->
+  part_read fuel (new_part bnd None false mx) s = Ok (data, p', s') -> data = body.
+Proof. exact window_reader_sound. Qed.
+Print Assumptions C19_window_reader_sound_any_state_partial.
+
+(* non-vacuity: content CR LF "-" "-" (a proper prefix of the delimiter), boundary "--B", delivered byte by byte
+   with read_chunk sizes 5 and 6: the hypotheses hold and the loop returns the content *)
+Example C19_window_reader_example :
+  let bnd := [45; 45; 66] in let body := [13; 10; 45; 45] in let rest := [45; 45; 13; 10] in
+  let segs := map (fun c => (1, [c])) (body ++ (delim_prefix ++ bnd) ++ rest) in
+  (forall i, (i < 2 + length body)%nat ->
+     starts_with (delim_prefix ++ bnd) (skipn i (delim_prefix ++ body ++ (delim_prefix ++ bnd) ++ rest)) = false) /\
+  concat (map snd segs) = body ++ (delim_prefix ++ bnd) ++ rest /\
+  (exists p' s', chunks_loop 100 [5; 6] 0 false [] (new_part bnd None false 1000) (s_init segs false 65536) = Ok (body, p', s')
+                 /\ p_at_eof p' = true) /\
+  (exists p' s', part_read 100 (new_part bnd None false 1000) (s_init segs true 65536) = Ok (body, p', s')).
+Proof.
+  cbv zeta. split; [|split; [vm_compute; reflexivity|split]].
+  - intros i Hi. do 6 (destruct i as [|i]; [vm_compute; reflexivity|]). cbn in Hi. lia.
+  - eexists. eexists. split; vm_compute; reflexivity.
+  - eexists. eexists. vm_compute. reflexivity.
+Qed.
+Print Assumptions C19_window_reader_example.
 
 (* ------------------------------------------------------------------ termination of the reading loops *)
 
